@@ -237,7 +237,7 @@ fn c07_increase_whole_minimal_u8() {
 
 // ------------------------------------------------------------------------------------------------
 
-fn decrease_whole<T, const D: u8>(pf: Profile, is_long: bool, cl: bool, liquidation: bool)
+fn decrease_whole<T, const D: u8>(pf: Profile, is_long: bool, cl: bool, liquidation: bool, plain: bool)
 where
     T: FixedPointOps<D> + CheckedSub + Copy + kani::Arbitrary + Into<u32> + num_traits::Bounded,
     T::Signed: Num + Copy + kani::Arbitrary + Into<i32>,
@@ -245,20 +245,27 @@ where
     let (mut p, prices) = whole_state::<T, D>(pf, is_long, cl);
     kani::assume(!p.size_in_usd.is_zero());
     let before = p;
+    // `plain`: no insolvent close, size delta capped, no separate collateral withdrawal
     let flags = DecreasePositionFlags {
-        is_insolvent_close_allowed: kani::any(),
+        is_insolvent_close_allowed: if plain { false } else { kani::any() },
         is_liquidation_order: liquidation,
-        is_cap_size_delta_usd_allowed: kani::any(),
+        is_cap_size_delta_usd_allowed: if plain { true } else { kani::any() },
     };
     let size_delta: T = kani::any();
-    let withdraw: T = kani::any();
+    let withdraw: T = if plain { T::zero() } else { kani::any() };
     let mut pos0 = p;
     let a = DecreasePosition::try_new(&mut pos0, prices, size_delta, None, withdraw, flags);
     let Ok(a) = a else {
         core::mem::forget(a);
         return;
     };
-    let r = a.verif_with_position(&mut p).execute();
+    // re-seat the position handle and re-assign the (default) swap type with a constant: both were read
+    // back from the `Result` payload, which CBMC treats as opaque bytes (a symbolic swap type would pull
+    // the whole `Swap::execute` into the symbolic execution)
+    let r = a
+        .verif_with_position(&mut p)
+        .set_swap(gmsol_model::action::decrease_position::DecreasePositionSwapType::NoSwap)
+        .execute();
     if let Ok(report) = &r {
         assert_c07_deltas(&before, &p);
         assert_c13_settle(&before, &p);
@@ -310,13 +317,13 @@ where
 
 //@ prop=C07 tier=experimental kind=hold
 //@ enc=DecreasePosition::execute (whole action: check_partial_close, check_close, check_liquidation, process_collateral with the CollateralProcessor, update_total_borrowing, update_open_interest, validate)
-//@ bound=T=u8, DECIMALS=1: long position with long-token collateral, ordinary (non-liquidation) order; every pool value, position, size delta, withdrawal amount, insolvent-close / cap flags, flat index/collateral price; parameters concrete: no price impact, no fees, borrowing settled, thresholds zero
+//@ bound=T=u8, DECIMALS=1: long position with long-token collateral, ordinary (non-liquidation) order; every pool value, position, size delta (capped to the position size), flat index/collateral price; no insolvent close, no separate collateral withdrawal; parameters concrete: no price impact, no fees, borrowing settled, thresholds zero
 //@ stubs=none; assumed pre-state invariants: the position's pool slots contain the position, sizes both positive
 //@ timeout=3600 mem=30
 #[kani::proof]
 #[kani::unwind(4)]
 fn c07_decrease_whole_minimal_long_u8() {
-    decrease_whole::<u8, 1>(MINIMAL, true, true, false);
+    decrease_whole::<u8, 1>(MINIMAL, true, true, false, true);
 }
 
 //@ prop=C09 tier=experimental kind=hold
@@ -327,5 +334,5 @@ fn c07_decrease_whole_minimal_long_u8() {
 #[kani::proof]
 #[kani::unwind(4)]
 fn c09_liquidation_whole_minimal_long_u8() {
-    decrease_whole::<u8, 1>(MINIMAL, true, true, true);
+    decrease_whole::<u8, 1>(MINIMAL, true, true, true, true);
 }
